@@ -311,12 +311,12 @@ def step (s : State) (op : Op) : State × Res :=
       | none => (s, Res.bad)
   | Op.merge i j =>
       match s.obj i, s.obj j with
-      | some _, some oj => if i = j then (s, Res.bad) else (stepMerge s i j oj, Res.unit)
+      | some _, some oj => if i = j then (s, Res.unit) else (stepMerge s i j oj, Res.unit)   -- `&other == this`: no-op
       | _, _ => (s, Res.bad)
   | Op.assign i j =>
       match s.obj i, s.obj j with
       | some oi, some oj =>
-          if i = j then (s, Res.bad)
+          if i = j then (s, Res.unit)                              -- `&other == this`: no-op
           else if oi.typed && !oj.typed then (s, Res.bad)          -- does not compile
           else if oi.typed then (setValue (stepMerge s i j oj) i oj.value, Res.unit)
           else (stepMerge s i j oj, Res.unit)
@@ -362,6 +362,40 @@ def step (s : State) (op : Op) : State × Res :=
   | Op.finish => if s.active then (flushAll s, Res.unit) else (s, Res.unit)
 
 def run (s : State) (ops : List Op) : State := ops.foldl (fun s op => (step s op).1) s
+
+/-! ### the unrepaired code (pinned commit): merging a suspend point into itself -/
+
+/-- the loop of the unrepaired `operator<<` when `other` is the object itself: `count` and the flag were read once
+before the loop (`flag0`), every iteration re-reads the object's own, changing, storage and `add`s to it -/
+def selfMergeLoopAsIs (flag0 : Bool) (i : Nat) : Nat → Nat → State → State
+  | 0, _, s => s
+  | fuel + 1, k, s =>
+      match s.obj i with
+      | none => s
+      | some o =>
+          selfMergeLoopAsIs flag0 i fuel (k + 1)
+            (add s i (if flag0 then (cellsOf s o.ext).getD k junk else o.inl.getD k junk))
+
+/-- after the loop: `delete[]` of the *current* block if the flag was set at entry, then `_count_flag = 0` -/
+def stepMergeSelfAsIs (s : State) (i : Nat) (o : Obj) : State :=
+  match (selfMergeLoopAsIs (o.cf % 2 == 1) i (o.cf / 2) 0 s).obj i with
+  | none => selfMergeLoopAsIs (o.cf % 2 == 1) i (o.cf / 2) 0 s
+  | some o1 =>
+      setObj (if o.cf % 2 = 1 then freeBlk (selfMergeLoopAsIs (o.cf % 2 == 1) i (o.cf / 2) 0 s) o1.ext
+              else selfMergeLoopAsIs (o.cf % 2 == 1) i (o.cf / 2) 0 s)
+        i (some { o1 with cf := 0 })
+
+def stepAsIs (s : State) (op : Op) : State × Res :=
+  match op with
+  | Op.merge i j | Op.assign i j =>
+      if i = j then
+        match s.obj i with
+        | some o => (stepMergeSelfAsIs s i o, Res.unit)
+        | none => (s, Res.bad)
+      else step s op
+  | _ => step s op
+
+def runAsIs (s : State) (ops : List Op) : State := ops.foldl (fun s op => (stepAsIs s op).1) s
 
 /-- end of life: every object of the pool is destroyed (in slot order), then the running coroutine ends -/
 def endOps (n : Nat) : List Op := (List.range n).map Op.dtor ++ [Op.finish]
